@@ -27,7 +27,14 @@ theorem nodeOf_fresh (q : Sql) (hw : WF q) (k : SKey) (h : Head) (hm : q.hasStud
     have := hw.noOrphan row hrow
     rw [hk, hm] at this
     cases this
-  rw [this]; rfl
+  have ho : q.ops.filter (·.1 == k) = [] := by
+    rw [List.filter_eq_nil_iff]
+    intro row hrow he
+    have hk : row.1 = k := by simpa using he
+    have := hw.noOrphanOps row hrow
+    rw [hk, hm] at this
+    cases this
+  rw [this, clientsOf_no_rows q.ops k ho]; rfl
 
 theorem studiesOf_any (q : Sql) (k : SKey) :
     (studiesOf q k.1).any (·.1 == k.2) = q.hasStudy k := by
@@ -107,7 +114,7 @@ theorem createStudy_sim (q : Sql) (hw : WF q) (k : SKey) (h : Head) :
       · intro q' hq'
         simp only [hs', Bool.false_eq_true, if_false, hown, if_true, Except.ok.injEq] at hq'
         subst hq'
-        refine ⟨hw.ownersNodup, ?_, ?_, ?_⟩
+        refine ⟨hw.ownersNodup, ?_, ?_, ?_, ?_⟩
         · simp only [List.map_append, List.map_cons, List.map_nil]
           rw [List.nodup_append]
           refine ⟨hw.studyKeys, by simp, ?_⟩
@@ -130,6 +137,10 @@ theorem createStudy_sim (q : Sql) (hw : WF q) (k : SKey) (h : Head) :
             simpa using hown
         · intro row hrow
           have := hw.noOrphan row hrow
+          unfold Sql.hasStudy at this ⊢
+          simp only [List.any_append, this, Bool.true_or]
+        · intro row hrow
+          have := hw.noOrphanOps row hrow
           unfold Sql.hasStudy at this ⊢
           simp only [List.any_append, this, Bool.true_or]
     · have hown' : q.owners.contains k.1 = false := by
@@ -163,7 +174,7 @@ theorem createStudy_sim (q : Sql) (hw : WF q) (k : SKey) (h : Head) :
       · intro q' hq'
         simp only [hs', Bool.false_eq_true, if_false, hown', Except.ok.injEq] at hq'
         subst hq'
-        refine ⟨?_, ?_, ?_, ?_⟩
+        refine ⟨?_, ?_, ?_, ?_, ?_⟩
         · rw [List.nodup_append]
           refine ⟨hw.ownersNodup, by simp, ?_⟩
           intro a ha b hb
@@ -192,6 +203,10 @@ theorem createStudy_sim (q : Sql) (hw : WF q) (k : SKey) (h : Head) :
             simp
         · intro row hrow
           have := hw.noOrphan row hrow
+          unfold Sql.hasStudy at this ⊢
+          simp only [List.any_append, this, Bool.true_or]
+        · intro row hrow
+          have := hw.noOrphanOps row hrow
           unfold Sql.hasStudy at this ⊢
           simp only [List.any_append, this, Bool.true_or]
 
@@ -280,7 +295,7 @@ theorem updateStudy_sim (q : Sql) (hw : WF q) (k : SKey) (h : Head) :
         apply List.map_congr_left
         intro r _
         exact updRow_key k h r
-      refine ⟨hw.ownersNodup, ?_, ?_, ?_⟩
+      refine ⟨hw.ownersNodup, ?_, ?_, ?_, ?_⟩
       · show ((q.studies.map fun row => if row.1 == k then (k, h) else row).map (·.1)).Nodup
         rw [hm, hkeys]; exact hw.studyKeys
       · intro r hr
@@ -296,14 +311,23 @@ theorem updateStudy_sim (q : Sql) (hw : WF q) (k : SKey) (h : Head) :
         rw [List.any_eq_true] at this ⊢
         obtain ⟨x, hx, hxe⟩ := this
         exact ⟨x, hx, by simp only [Function.comp, updRow_key]; exact hxe⟩
+      · intro r hr
+        have := hw.noOrphanOps r hr
+        unfold Sql.hasStudy at this ⊢
+        show (q.studies.map fun row => if row.1 == k then (k, h) else row).any (·.1 == r.1) = true
+        rw [hm, List.any_map]
+        rw [List.any_eq_true] at this ⊢
+        obtain ⟨x, hx, hxe⟩ := this
+        exact ⟨x, hx, by simp only [Function.comp, updRow_key]; exact hxe⟩
 
 /-! #### delete_study -/
 
-theorem studiesOf_delete_aux (q : Sql) (k : SKey) (o : String) (T' : List (SKey × Trial))
+theorem studiesOf_delete_aux (q : Sql) (k : SKey) (o : String) (T' : List (SKey × Trial)) (O' : List (SKey × SugOp))
     (hT : ∀ key : SKey, key ≠ k → (T'.filter (·.1 == key)).map (·.2) = (q.trials.filter (·.1 == key)).map (·.2))
+    (hO : ∀ key : SKey, key ≠ k → clientsOf O' key = clientsOf q.ops key)
     (rows : List (SKey × Head)) :
     ((((rows.filter (·.1 != k)).filter (·.1.1 == o)).map fun row =>
-        (row.1.2, ({ head := row.2, trials := (T'.filter (·.1 == row.1)).map (·.2), clients := [] } : RNode)))) =
+        (row.1.2, ({ head := row.2, trials := (T'.filter (·.1 == row.1)).map (·.2), clients := clientsOf O' row.1 } : RNode)))) =
       if o == k.1 then
         (((rows.filter (·.1.1 == o)).map fun row => (row.1.2, nodeOf q row.1 row.2)).filter (·.1 != k.2))
       else ((rows.filter (·.1.1 == o)).map fun row => (row.1.2, nodeOf q row.1 row.2)) := by
@@ -334,15 +358,15 @@ theorem studiesOf_delete_aux (q : Sql) (k : SKey) (o : String) (T' : List (SKey 
         · have hs : (row.1.2 != k.2) = true := by
             have : row.1.2 ≠ k.2 := fun e2 => hne (Prod.ext ((beq_iff_eq.mp hr).trans (beq_iff_eq.mp ho)) e2)
             simp [this]
-          simp only [ho, if_true, List.filter_cons, hs, nodeOf, hT row.1 hne]
+          simp only [ho, if_true, List.filter_cons, hs, nodeOf, hT row.1 hne, hO row.1 hne]
         · have ho' : (o == k.1) = false := by
             cases hh : o == k.1 with
             | true => exact absurd hh ho
             | false => rfl
-          simp only [ho', Bool.false_eq_true, if_false, nodeOf, hT row.1 hne]
+          simp only [ho', Bool.false_eq_true, if_false, nodeOf, hT row.1 hne, hO row.1 hne]
       · simp only [hr, Bool.false_eq_true, if_false, ih]
 
-theorem filter_ne_other (rows : List (SKey × Trial)) (k key : SKey) (hne : key ≠ k) :
+theorem filter_ne_other {β : Type} (rows : List (SKey × β)) (k key : SKey) (hne : key ≠ k) :
     ((rows.filter (·.1 != k)).filter (·.1 == key)).map (·.2) = (rows.filter (·.1 == key)).map (·.2) := by
   induction rows with
   | nil => rfl
@@ -374,7 +398,9 @@ theorem deleteStudy_sim (q : Sql) (hw : WF q) (k : SKey) :
       apply List.map_congr_left
       intro o _
       simp only [Function.comp]
-      have := studiesOf_delete_aux q k o (q.trials.filter (·.1 != k)) (fun key hne => filter_ne_other q.trials k key hne) q.studies
+      have := studiesOf_delete_aux q k o (q.trials.filter (·.1 != k)) (q.ops.filter (·.1 != k))
+        (fun key hne => filter_ne_other q.trials k key hne)
+        (fun key hne => clientsOf_congr q.ops _ key (filter_ne_other q.ops k key hne)) q.studies
       unfold studiesOf nodeOf at *
       simp only at this ⊢
       rw [this]
@@ -382,7 +408,7 @@ theorem deleteStudy_sim (q : Sql) (hw : WF q) (k : SKey) :
     · intro q' hq'
       simp only [Option.isSome_some, if_true, Except.ok.injEq] at hq'
       subst hq'
-      refine ⟨hw.ownersNodup, ?_, ?_, ?_⟩
+      refine ⟨hw.ownersNodup, ?_, ?_, ?_, ?_⟩
       · exact List.Nodup.sublist (List.Sublist.map _ List.filter_sublist) hw.studyKeys
       · intro r hr
         exact hw.studyOwner r (List.mem_filter.mp hr).1
@@ -390,6 +416,16 @@ theorem deleteStudy_sim (q : Sql) (hw : WF q) (k : SKey) :
         have hr' := List.mem_filter.mp hr
         have hne : r.1 ≠ k := by simpa using hr'.2
         have := hw.noOrphan r hr'.1
+        unfold Sql.hasStudy at this ⊢
+        rw [List.any_eq_true] at this ⊢
+        obtain ⟨x, hx, hxe⟩ := this
+        refine ⟨x, List.mem_filter.mpr ⟨hx, ?_⟩, hxe⟩
+        have : x.1 = r.1 := beq_iff_eq.mp hxe
+        simp [this, hne]
+      · intro r hr
+        have hr' := List.mem_filter.mp hr
+        have hne : r.1 ≠ k := by simpa using hr'.2
+        have := hw.noOrphanOps r hr'.1
         unfold Sql.hasStudy at this ⊢
         rw [List.any_eq_true] at this ⊢
         obtain ⟨x, hx, hxe⟩ := this
